@@ -272,5 +272,21 @@ pub fn gen_case(r: &mut Rng, out: &mut String) {
             queries(r, out, "t0", &c);
         }
     }
-    queries(r, out, "t0", &c);
+    queries(r, out, "t0", &c);    // trait-impl glue: clone_from over a dirty destination, Default, Extend<&u64>, FromIterator<&u64>
+    if r.chance(1, 3) {
+        writeln!(out, "tnew t8").unwrap();
+        writeln!(out, "tinsert_range t8 in:7 ex:5007").unwrap();
+        writeln!(out, "tclone_from t8 t0").unwrap();
+        writeln!(out, "teq t8 t0").unwrap();
+        writeln!(out, "expect true").unwrap();
+        writeln!(out, "tdefault t7").unwrap();
+        let vs: Vec<String> = (0..r.range(0, 8)).map(|_| ((c.pkey(r) << 32) | r.below(70000)).to_string()).collect();
+        writeln!(out, "textend_ref t7 {}", vs.join(" ")).unwrap();
+        writeln!(out, "tfrom_iter_ref t6 {}", vs.join(" ")).unwrap();
+        writeln!(out, "teq t6 t7").unwrap();
+        writeln!(out, "expect true").unwrap();
+        writeln!(out, "tdump t7").unwrap();
+        writeln!(out, "tdebug t7").unwrap();
+        writeln!(out, "tdebug t0").unwrap();
+    }
 }
